@@ -380,6 +380,13 @@ func genLoopDL(r *Rng, idx int, tier string, step func(op string) string) {
 			}
 		}
 		absorb(peers, step(fmt.Sprintf("msg p=%d t=piece i=%d b=%d l=%d data=%s", p.k, i, b, ln, data)))
+		if gated && !p.closed && r.Chance(25) {
+			// the peer hangs up while the piece it has just completed may still be waiting for its hash verdict
+			// and write (the gate holds the writer): a corrupt sender must be banned all the same
+			absorb(peers, step(fmt.Sprintf("disconnect p=%d", p.k)))
+			p.closed = true
+			continue
+		}
 		if p.kind == "dup" && r.Chance(50) {
 			absorb(peers, step(fmt.Sprintf("msg p=%d t=piece i=%d b=%d l=%d data=%s", p.k, i, b, ln, data)))
 		}
